@@ -134,6 +134,31 @@ def to_dist(rs):
         d["inadequate_schedule"] += not (m in ps and all(a < b for a, b in zip(ps, ps[1:])))
     return d
 
+def tls_nontrivial(r):
+    t = r["input"].split()
+    return t[1] == "1" and t[3].lower() in ("https", "wss")
+
+def tls_dist(rs):
+    d = {"tls_configured": 0, "secure_scheme": 0, "secure_scheme_odd_case": 0, "host_dns": 0, "host_ipv4": 0, "host_ipv6": 0,
+         "host_not_a_server_name": 0, "alpn_offered_both_sides": 0, "peers": {}, "results": {}, "wire": {}}
+    for r in rs:
+        t = r["input"].split()
+        o = r["obs"].split()
+        d["tls_configured"] += t[1] == "1"
+        d["secure_scheme"] += t[3].lower() in ("https", "wss")
+        d["secure_scheme_odd_case"] += t[3].lower() in ("https", "wss") and t[3] != t[3].lower()
+        h = t[4]
+        d["host_ipv6"] += h.startswith("[")
+        d["host_ipv4"] += h.replace(".", "").isdigit() and h.count(".") == 3
+        d["host_not_a_server_name"] += len(o) >= 7 and o[6] == "0"
+        d["host_dns"] += not h.startswith("[") and not (h.replace(".", "").isdigit() and h.count(".") == 3)
+        d["alpn_offered_both_sides"] += t[2] != "-" and t[7] != "-"
+        d["peers"][t[6]] = d["peers"].get(t[6], 0) + 1
+        d["results"][o[0]] = d["results"].get(o[0], 0) + 1
+        if len(o) > 1:
+            d["wire"][o[1]] = d["wire"].get(o[1], 0) + 1
+    return d
+
 def wire_nontrivial(r):
     t = r["input"].split()
     return t[1] == "req" and t[4] != "-" and t[5] != "-"
@@ -332,6 +357,32 @@ PROPS = {
                     "kernel sockets may deliver short reads: compared with the FIFO specification only",
                     "memory safety of the unsafe ReadBuf bookkeeping is not modelled (only byte counts and contents)",
                     "TLS streams (rustls) are exercised by the C12 stream, not here"],
+    },
+    "C12": {
+        "props_module": "HdModel.Props.C12",
+        "class_prefix": ["C12/"],
+        "theorems": ["Hd.Tls.C12_scheme_test", "Hd.Tls.C12_never_in_clear", "Hd.Tls.C12_stream_means_verified",
+                     "Hd.Tls.C12_failure_is_error", "Hd.Tls.C12_success", "Hd.Tls.C12_others_not_wrapped", "Hd.Tls.C12_no_panic",
+                     "Hd.Tls.C12_run_spec"],
+        "streams": [
+            {"name": "tls", "quick": 4000, "thorough": 200000, "head": 8, "unit": 1, "batch": 20000,
+             "exhaustive": "tls-exhaustive", "exhaustive_always": True, "nontrivial": tls_nontrivial, "distribution": tls_dist},
+        ],
+        "rule": "the real TlsTransport (with / without a rustls ClientConfig trusting harness/certs/ca.pem) around an inner transport "
+                "whose IO is an in-memory duplex; the peer end records every raw byte and is a real rustls server with a matching "
+                "(example.com, *.example.com, localhost, 127.0.0.1, ::1), other-name or untrusted certificate, or speaks plaintext, "
+                "closes before/after the first flight, truncates the handshake, sends a fatal alert, or stays silent. Schemes "
+                "http/https/ws/wss/HTTPS/Wss/foo/httpss x 20 host forms (DNS incl. wildcard one/two labels, upper case, trailing dot, "
+                "underscore; IPv4; three bracketed IPv6; URI-legal names rustls rejects) x ports x ALPN none/h2/http1.1/both on either "
+                "side. Every run includes the exhaustive grid scheme x host x peer x {TLS configured, not} plus the 4x4 ALPN square "
+                "(3008 cases) besides the random cases. After a successful connect the client writes a marker through the stream; "
+                "observed: caller result, first raw bytes at the peer (TLS record / ASCII), marker visible raw, SNI parsed from the "
+                "raw ClientHello by the harness' own parser, negotiated ALPN, marker received through TLS. "
+                "non-trivial = TLS configured and scheme https/wss in any spelling",
+        "assumes": ["rustls: accepts a string as a server name exactly as reported by ServerName::try_from (the model takes that "
+                    "verdict as an input); a handshake succeeds iff the peer's chain leads to a trusted root, a certificate name covers "
+                    "the server name, and ALPN can be agreed; SNI carries DNS names only, without a trailing dot",
+                    "name coverage is modelled for the fixed certificates of harness/certs only (one-label wildcard, case-insensitive)"],
     },
     "C13": {
         "props_module": "HdModel.Props.C13",
